@@ -10,7 +10,7 @@ from . import check, netgen, netsim, seeds, artefact, fbs
 class C13(check.Check):
     pid = "C13"
     level = "exploration"
-    quick = dict(cases=2400, budget=90, timeout=120)
+    quick = dict(cases=5000, budget=90, timeout=120)
     thorough = dict(cases=60000, budget=1200, timeout=300)
     components = {"real": ["ethosu.vela CLI entry point vela.main and everything below it"],
                   "model": ["plain flatbuffer parser accepting the output", "step/wall budget (hang detector)"], "stub": []}
@@ -245,7 +245,7 @@ def gen_pool(r):
     attr_q = [r.choice([0.02, 0.005, 0.002]), r.choice([-10, 0, 100])]  # fine output steps: the two GELU flavours differ by < 1e-3
     share_alpha = r.choice([0.1, 0.2, 0.3, attr_q[0]])
     for k in range(r.choice([3, 4, 5])):
-        style = r.choice(["lut", "lut", "conv", "generated", "generated", "branchy", "branchy", "lut_attr", "lut_attr", "cpu_ops", "scale_share", "scale_share"])
+        style = r.choice(["lut", "lut", "conv", "generated", "generated", "branchy", "branchy", "lut_attr", "lut_attr", "lut_attr", "lut_attr", "cpu_ops", "cpu_ops", "scale_share", "scale_share"])
         if style == "scale_share":
             # different operators of different models reach the compiler's scale arithmetic with the SAME numbers (input scale, a second
             # factor, output scale) - as tensor scales (float32), as attributes, as constants: whatever is memoised on such numbers must
